@@ -874,7 +874,7 @@ fn do_command_substitution_for_dollar(sh: &mut Shell, tokens: &mut types::Tokens
                 }
             };
 
-            let output_txt = cmd_result.stdout.trim();
+            let output_txt = cmd_result.stdout.trim_end_matches('\n');
 
             let ptn = r"(?P<head>[^\$]*)\$\(.+\)(?P<tail>.*)";
             let re;
@@ -926,7 +926,7 @@ fn do_command_substitution_for_dot(sh: &mut Shell, tokens: &mut types::Tokens) {
                 }
             };
 
-            new_token = cr.stdout.trim().to_string();
+            new_token = cr.stdout.trim_end_matches('\n').to_string();
         } else if sep == "\"" || sep.is_empty() {
             let re;
             if let Ok(x) = Regex::new(r"^([^`]*)`([^`]+)`(.*)$") {
@@ -974,7 +974,7 @@ fn do_command_substitution_for_dot(sh: &mut Shell, tokens: &mut types::Tokens) {
                         }
                     };
 
-                    _output = cr.stdout.trim().to_string();
+                    _output = cr.stdout.trim_end_matches('\n').to_string();
                 }
                 _item = format!("{}{}{}", _item, _head, _output);
                 if _tail.is_empty() {
